@@ -209,6 +209,46 @@ func runC11(c *core.Ctx) {
 			c.Violate("C11/e2e/score-below-target", fmt.Sprintf("Mine returned nonce %d with score %v < target %v", nonce, s, e.target), cas, "", nil)
 		}
 	})
+	// one Worker object used for a whole sequence of calls (alternating a trivially low target, which lets several of
+	// its goroutines succeed at once, and a real one, always with new data): every returned nonce must meet the target of
+	// ITS call. Nothing may survive from one call to the next.
+	for _, workers := range []int{1, 2, 4, 16} {
+		w := pow.New(workers)
+		for round := 0; round < 24; round++ {
+			data := []byte{byte(round), byte(workers), 'r', 'e', 'u', 's', 'e'}
+			target := 1e-6
+			if round%2 == 1 {
+				target = math.Pow(3, 4)/float64(len(data)+8) - 1e-9
+			}
+			ctx, cancel := context.WithCancel(context.Background())
+			if round%6 == 5 {
+				cancel() // an already cancelled context: a nonce may only be returned if it is valid for this data
+			}
+			var nonce uint64
+			var err error
+			p := core.Catch(func() { nonce, err = w.Mine(ctx, data, target) })
+			cancel()
+			c.Eval(1)
+			nontriv.Add(1)
+			cas := map[string]interface{}{"workers": workers, "call": round, "target": target}
+			if p != nil {
+				c.Violate("C11/reuse/panic", fmt.Sprint(p), cas, "", nil)
+				break
+			}
+			if err != nil {
+				if round%6 != 5 {
+					c.Violate("C11/reuse/error", fmt.Sprintf("call %d on the same Worker: %v", round, err), cas, "", nil)
+				}
+				continue
+			}
+			msg := append(append([]byte{}, data...), make([]byte, 8)...)
+			binary.LittleEndian.PutUint64(msg[len(data):], nonce)
+			if refScoreV1(msg) < target {
+				c.Violate("C11/reuse/score-below-target", fmt.Sprintf("call %d on a Worker with %d goroutines returned nonce %d, whose score %v is below this call's target %v (earlier calls on the same Worker used other data and lower targets)", round, workers, nonce, refScoreV1(msg), target), cas, "", nil)
+				break
+			}
+		}
+	}
 	c.Sample(map[string]interface{}{"e2e": "22-byte data, target 3^5/30 - 1e-9, 3 workers"})
 
 	// ---- (d) scripted hash through Mine ----
